@@ -109,7 +109,7 @@ def run_op(ctx, i):
             if ok:
                 ctx.check(relclose(vis, A @ I), "vis.operator", storage=storage, got=vis, expected=A @ I, image=I, **tag)
                 results[(preload, storage)] = vis
-        for mk in ("fractional", "tiny", "signed", "signed_sparse"):
+        for mk in ("fractional", "tiny", "signed", "signed_sparse", "cancelling"):
             M, _ = gen.mapping_matrix(rng, n, int(rng.integers(1, 4)), kind=mk)
             ok, TM = ctx.guarded("matrix.operator", lambda: _np(T.transform_mapping_matrix(mapping_matrix=M.copy())))
             if ok:
